@@ -12,8 +12,8 @@
 (*           / lv.Expiry, RemoveOldestDatum scans m.LabelValues;           *)
 (*           RemoveDatum takes m.Lock                                      *)
 (*   reload  store.go Add: insertMu + searchMu.RLock, iterates             *)
-(*           v.LabelValues of the old metric, v.GetDatum (v.Lock), then    *)
-(*           searchMu.Lock to swap the map entry                           *)
+(*           v.LabelValues of the old metric copying Labels and Expiry,    *)
+(*           v.GetDatum (v.Lock), then searchMu.Lock to swap the map entry *)
 (*   prom / varz / graphite   exporter: Range, m.RLock, EmitLabelSets      *)
 (*           (a child goroutine, ordered inside the RLock by the channel), *)
 (*           atomic loads of the datum                                     *)
@@ -84,7 +84,7 @@ Program(a) ==
          <<Acq("m", "W"), Acc("LV", "W", "Metric.RemoveDatum"), Rel("m", "W"), Rel("search", "R")>>
     [] a = "reload" ->
          <<Acq("insert", "W"), Acq("search", "R"), Acc("MAP", "R", "Store.Add")>> \o
-         Guarded(DEV_AddIteratesLabelValuesUnlocked, <<Acc("LV", "R", "Store.Add")>>) \o
+         Guarded(DEV_AddIteratesLabelValuesUnlocked, <<Acc("LV", "R", "Store.Add"), Acc("EXP", "R", "Store.Add")>>) \o   \* range v.LabelValues; copies oldLabel.Expiry
          <<Acq("m", "W"), Acc("LV", "R", "Metric.GetDatum"), Rel("m", "W"),
            Rel("search", "R"), Acq("search", "W"), Acc("MAP", "W", "Store.Add"), Rel("search", "W"), Rel("insert", "W")>>
     [] a \in {"prom", "varz", "graphite"} ->
